@@ -133,6 +133,10 @@ def run(ctx, rep):
     from ..engine import program
     prov.set_program(program(F))
     range_helpers(F, rep, "lazy-read-site")
+    # the stream parser decodes with the same code as the slice parser (parse / note / hash / gnu_symver / ...): the census above covers
+    # module elf_stream; that the shared code it calls does not panic either is C01's census, run here as part of this check
+    from ._common import premise
+    premise(ctx, rep, "C01", "the decoding code shared with the slice parser has no reachable panic", where="src/")
     rep.trusted_base += ["as C01; std's HashMap/Vec/Box methods listed in ALLOC_OK behave as documented",
                         "an allocation of at most stream-length bytes succeeds (allocation failure on legitimately large streams is out of scope)"]
     rep.assumptions += ["the numeric 'small constant multiple' is not computed: the rule shows each sized allocation <= stream length "
